@@ -484,14 +484,20 @@ func (g *qqGen) macroProgram() (defs []MalType, callForm MalType) {
 		if h, ok := cl.Val[0].(Symbol); ok && h.Val != "try" && h.Val != "list" {
 			args := cl.Val[1:]
 			via := func(name string) MalType { return List{Val: append([]MalType{sy(name)}, args...)} }
-			switch r.intn(4) {
+			// (each route has a name of its own, never bound any other way in the whole run: an evaluator that keeps
+			// process-wide notes about names must not be helped by an earlier case)
+			switch r.intn(6) {
 			case 0:
 				defs = append(defs, ls(sy("def"), sy("m2"), h))
 				callForm = via("m2")
 			case 1:
 				callForm = ls(sy("let"), vc(sy("mm"), h), via("mm"))
 			case 2:
-				callForm = ls(ls(sy("fn"), vc(sy("mm")), via("mm")), h)
+				callForm = ls(ls(sy("fn"), vc(sy("pm")), via("pm")), h)
+			case 3: // rest parameter holding the macro; called through (first …) is a function call of a macro VALUE, so bind it by destructuring-free means: second fixed parameter
+				callForm = ls(ls(sy("fn"), vc(sy("ig"), sy("pm2")), via("pm2")), 0, h)
+			case 4: // the catch variable
+				callForm = ls(sy("try"), ls(sy("throw"), h), ls(sy("catch"), sy("cm"), via("cm")))
 			default:
 				callForm = ls(sy("let"), vc(h, ls(sy("fn"), vc(sy("&"), sy("xs")), call1("count", sy("xs")))), via(h.Val))
 			}
@@ -916,10 +922,26 @@ func (g *tailGen) program(iter int) MalType {
 	k := 1 + r.intn(3) // number of functions in the cycle
 	forms := []MalType{sy("do")}
 	names := []string{"ta", "tb", "tc"}[:k]
+	// how the functions come to be: written as (def name (fn …)), or through a defn-style macro / assembled with list and
+	// eval — then the (fn …) form is built at run time (it has no source position) while its body, tail calls included,
+	// is text the user wrote
+	how := r.intn(4)
+	if how == 1 {
+		forms = append(forms, ls(sy("defmacro"), sy("defn"), ls(sy("fn"), vc(sy("name"), sy("params"), sy("&"), sy("body")),
+			call1("quasiquote", ls(sy("def"), call1("unquote", sy("name")), ls(sy("fn"), call1("unquote", sy("params")), call1("splice-unquote", sy("body"))))))))
+	}
 	for i, n := range names {
 		next := names[(i+1)%k]
 		rec := ls(sy(next), call1("-", sy("n"), 1))
 		body := ls(sy("do"), call1("depth!"), ls(sy("if"), call1("<", sy("n"), 1), kw("done"), g.wrap(rec, r.intn(4))))
+		switch how {
+		case 1:
+			forms = append(forms, ls(sy("defn"), sy(n), vc(sy("n")), body))
+			continue
+		case 2:
+			forms = append(forms, ls(sy("def"), sy(n), call1("eval", call1("list", call1("quote", sy("fn")), call1("quote", vc(sy("n"))), call1("quote", body)))))
+			continue
+		}
 		forms = append(forms, ls(sy("def"), sy(n), ls(sy("fn"), vc(sy("n")), body)))
 	}
 	forms = append(forms, ls(sy(names[0]), iter))
